@@ -502,8 +502,8 @@ func coldBurst(ctx *core.Ctx, ci int, router string) {
 		c.Router(restful.RouterJSR311{})
 	}
 	// expressions nobody in this process has used yet (the configuration index and the seed make them unique)
-	n := 30 + ci
-	root := fmt.Sprintf("/cold/{tenant:[a-z]{1,%d}}", n)
+	n := 30 + ci%900 // (regexp refuses repeat counts beyond 1000)
+	root := fmt.Sprintf("/cold/{tenant:%s{1,%d}}", []string{"[a-z]", "[a-y]", "[a-x]"}[(ci/900)%3], n)
 	ws := new(restful.WebService).Path(root)
 	ws.Route(ws.GET(fmt.Sprintf("/{id:[0-9]{1,%d}}/{rest:[a-z0-9]{1,%d}}", n+1, n+2)).To(func(req *restful.Request, resp *restful.Response) {
 		resp.Write([]byte(req.PathParameter("tenant") + "|" + req.PathParameter("id") + "|" + req.PathParameter("rest")))
